@@ -204,6 +204,15 @@ def check(pid, mod, tier, seed, scratch, jobs, t0, nfiles):
             reach_fail.append("%s=%d<%d" % (name, counters.get(name, 0), lo))
 
     os.makedirs(os.path.join(VERIF, "replays"), exist_ok=True)
+    if not os.environ.get("VF_KEEP_REPLAYS"):
+        # replays of much earlier runs of this property would only be mistaken for this run's
+        import glob
+        for old in glob.glob(os.path.join(VERIF, "replays", "%s-*.json" % pid)):
+            try:
+                if time.time() - os.path.getmtime(old) > 1800:
+                    os.unlink(old)
+            except OSError:
+                pass
     os.makedirs(os.path.join(VERIF, "evidence"), exist_ok=True)
     lines = []
     seen_kinds = {}
